@@ -166,8 +166,11 @@ Definition eff_dump (st : eff) : json := encode cfg_structs 64 t_mosn (transfer 
 
 (* correspondence: a history of real setter calls (arguments as printed), the real state and the real transferConfig
    output (name-keyed lists sorted by name by the harness) *)
-Record eff_case := mkEffCase { ec_ops : list eff_op; ec_state : val; ec_dump : json }.
+(* ec_wf: the history is the initialisation of a loaded configuration (inline mode): the reassembled MOSNConfig must then
+   satisfy the premise of c19_roundtrip_full, and the model's dump / load / dump must be stable on it *)
+Record eff_case := mkEffCase { ec_ops : list eff_op; ec_state : val; ec_dump : json; ec_wf : bool }.
 Definition eff_case_ok (k : eff_case) : bool :=
   let st := eff_run (ec_ops k) eff_init in
-  (indices_ok && val_eqb (eff_to_val st) (ec_state k) && json_eqb (eff_dump st) (ec_dump k))%bool.
+  (indices_ok && val_eqb (eff_to_val st) (ec_state k) && json_eqb (eff_dump st) (ec_dump k)
+   && (negb (ec_wf k) || (wfb cfg_structs 64 t_mosn (transfer st) && stable_case_ok (t_mosn, transfer st))))%bool.
 Definition eff_mismatches (l : list eff_case) : list nat := mismatches_from eff_case_ok 0 l.
